@@ -33,6 +33,12 @@ type Solver struct {
 	out     *bufio.Reader
 	levels  []map[int]bool // ids defined at each scope level
 	ufDone  []map[string]bool
+	// hash UF applications ("H_*") the solver has seen, per scope level, and
+	// those whose axioms (injectivity against every other seen application,
+	// never the zero digest) still have to be sent.  Axioms are instantiated
+	// lazily: an application that never reaches the solver costs nothing.
+	hApps [][]*Term
+	hNew  []*Term
 	Queries int
 	Sats    int
 	Unsats  int
@@ -145,12 +151,15 @@ func (s *Solver) Push() {
 	s.send("(push 1)")
 	s.levels = append(s.levels, map[int]bool{})
 	s.ufDone = append(s.ufDone, map[string]bool{})
+	s.hApps = append(s.hApps, nil)
 }
 
 func (s *Solver) Pop() {
 	s.send("(pop 1)")
 	s.levels = s.levels[:len(s.levels)-1]
 	s.ufDone = s.ufDone[:len(s.ufDone)-1]
+	s.hApps = s.hApps[:len(s.hApps)-1]
+	s.hNew = nil
 }
 
 func (s *Solver) Depth() int { return len(s.levels) }
@@ -217,7 +226,44 @@ func (s *Solver) ref(t *Term) string {
 	sb.WriteString("))")
 	s.send(sb.String())
 	s.levels[len(s.levels)-1][t.id] = true
+	if t.op == "uf" && strings.HasPrefix(t.name, "H_") {
+		s.hNew = append(s.hNew, t)
+	}
 	return name
+}
+
+// flushHashAxioms sends the axioms of every hash application that reached
+// the solver since the last call.
+func (s *Solver) flushHashAxioms() {
+	for len(s.hNew) > 0 {
+		app := s.hNew[0]
+		s.hNew = s.hNew[1:]
+		st := app.st
+		var axs []*Term
+		for _, lvl := range s.hApps {
+			for _, prev := range lvl {
+				if prev == app {
+					continue
+				}
+				if prev.name == app.name {
+					axs = append(axs, st.Implies(st.RawEq(prev, app), st.Eq(prev.args[0], app.args[0])))
+				} else {
+					axs = append(axs, st.Not(st.RawEq(prev, app)))
+				}
+			}
+		}
+		axs = append(axs, st.Not(st.RawEq(app, st.BVConst(0, app.sort.W))))
+		if len(s.hApps) == 0 {
+			s.hApps = append(s.hApps, nil)
+		}
+		s.hApps[len(s.hApps)-1] = append(s.hApps[len(s.hApps)-1], app)
+		for _, ax := range axs {
+			if ax.isTrue() {
+				continue
+			}
+			s.send("(assert " + s.ref(ax) + ")")
+		}
+	}
 }
 
 func (s *Solver) Assert(t *Term) {
@@ -225,6 +271,7 @@ func (s *Solver) Assert(t *Term) {
 		return
 	}
 	r := s.ref(t)
+	s.flushHashAxioms()
 	s.send("(assert " + r + ")")
 }
 
@@ -250,6 +297,7 @@ func (s *Solver) Check(assumps ...*Term) Result {
 			lits = append(lits, s.ref(a))
 		}
 	}
+	s.flushHashAxioms()
 	start := time.Now()
 	// literals must be names: wrap constants/vars are fine too
 	if len(lits) == 0 {
